@@ -127,7 +127,7 @@ where
         self.node_count = 0;
         self.edge_count = 0;
         let mut free_node = NodeIndex::end();
-        /*+*/proof { assert(self.ns().subrange(0, 0) =~= Seq::<Node<Option<N>, Ix>>::empty()); assert(nchain(self.ns().subrange(0, 0), free_node.0.ix() as int, fl)); }/*-*/
+        /*+*/proof { let f0: NodeIndex<Ix> = free_node; assert(self.ns().subrange(0, 0) =~= Seq::<Node<Option<N>, Ix>>::empty()); assert(nchain(self.ns().subrange(0, 0), f0.0.ix() as int, fl)); }/*-*/
         for node_index in /*+*/it:/*-*/ 0..self.g.node_count()
             /*+*/invariant
                 it.seq().len() == n0, forall|k: int| 0 <= k < n0 ==> it.seq()[k] == k,
@@ -183,7 +183,7 @@ where
             assert(slists_ok(ns1, e0, 1, inn, -1));
         }/*-*/
         /*R:D6 for (edge_index, edge) in enumerate(&mut self.g.edges) */ let mut __i = 0usize; loop
-            invariant __i <= self.es().len(), self.ns().len() == n0, self.es().len() == es0.len(), n0 <= end_ix::<Ix>(), es0.len() <= end_ix::<Ix>(),
+            invariant __i <= self.es().len(), self.ns().len() == n0, self.es().len() == es0.len(), n0 <= end_ix::<Ix>(), es0.len() <= end_ix::<Ix>(), ns0 == old(self).ns(), es0 == old(self).es(), n0 == ns0.len(),
                 self.free_node == free_node, self.node_count == n0 - fl.len(), self.edge_count == __i - fe.len(),
                 free_nodes_ok(self.ns(), self.free_node.0.ix() as int, fl, -1),
                 slists_ok(self.ns(), self.es().subrange(0, __i as int), 0, out, -1),
@@ -213,12 +213,13 @@ where
             }
             let a = edge.source();
             let b = edge.target();
+            /*+*/proof { assert(esb[i].node == es0[i].node); assert(esb[i].weight == es0[i].weight); assert(elive(es0, i)); }/*-*/
             let edge_idx = EdgeIndex::new(edge_index);
             match index_twice(&mut self.g.nodes, a.index(), b.index()) {
                 Pair::None => /*+*/{ proof { assert(!(nlive(ns0, es0[i].node[0].i()) && nlive(ns0, es0[i].node[1].i()))); }/*-*/ return Err(if a > b { a } else { b }) /*+*/}/*-*/,
                 Pair::One(an) => {
                     if an.weight.is_none() {
-                        /*+*/proof { assert(!nlive(ns0, es0[i].node[0].i())); }/*-*/
+                        /*+*/proof { if an.weight is None { assert(!nlive(ns0, es0[i].node[0].i())); } }/*-*/
                         return Err(a);
                     }
                     edge.next = an.next;
@@ -228,11 +229,11 @@ where
                 Pair::Both(an, bn) => {
                     // a and b are different indices
                     if an.weight.is_none() {
-                        /*+*/proof { assert(!nlive(ns0, es0[i].node[0].i())); }/*-*/
+                        /*+*/proof { if an.weight is None { assert(!nlive(ns0, es0[i].node[0].i())); } }/*-*/
                         return Err(a);
                     }
                     if bn.weight.is_none() {
-                        /*+*/proof { assert(!nlive(ns0, es0[i].node[1].i())); }/*-*/
+                        /*+*/proof { if bn.weight is None { assert(!nlive(ns0, es0[i].node[1].i())); } }/*-*/
                         return Err(b);
                     }
                     edge.next = [an.next[0], bn.next[1]];
